@@ -80,7 +80,8 @@ Inductive mcond :=
 | MNotNone                              (* if self.x is not None *)
 | MTruthy                               (* if self.x *)
 | MNeqDefault                           (* if self.x and self.x != DEFAULT *)
-| MGatedBy (j : nat).                   (* if self.<option j>  -- conditional on ANOTHER attribute *)
+| MGatedBy (j : nat).                   (* if self.<option j>  -- conditional on ANOTHER attribute; used by no class
+                                           since fix a9cc81d8 (Welcome.authmethod), kept so that such code is expressible *)
 
 (* constructor assertion on the attribute *)
 Inductive ckind := CNone | CStr | CDict | CFwd.
@@ -195,21 +196,22 @@ Section Schema.
   Definition valid_enc_ser (v : value) : bool :=
     match v with VStr s => mem_str s enc_sers || custom_ok s | _ => false end.
 
-  (* message.py, every parse() with forward_for:
+  (* message.py, every parse() with forward_for (13 sites, after fix ea2362f8):
        valid = False
        if type(forward_for) == list:
            for ff in forward_for:
                if type(ff) != dict: break
                if "session" not in ff or type(ff["session"]) != int: break
-               if "authid" not in ff or type(ff["authid"]) != str: break
+               if "authid" not in ff or (ff["authid"] is not None and type(ff["authid"]) != str): break
                if "authrole" not in ff or type(ff["authrole"]) != str: break
-           valid = True            <-- executed whether or not the loop broke
+           else:
+               valid = True         <-- only when the loop ran to completion
        if not valid: raise ProtocolError *)
   Definition ff_entry_passes (ff : value) : bool :=
     match ff with
     | VDict d =>
         (match dget (s2l "session") d with Some (VInt _) => true | _ => false end)
-        && (match dget (s2l "authid") d with Some (VStr _) => true | _ => false end)
+        && (match dget (s2l "authid") d with Some VNull | Some (VStr _) => true | _ => false end)
         && (match dget (s2l "authrole") d with Some (VStr _) => true | _ => false end)
     | _ => false
     end.
@@ -217,7 +219,7 @@ Section Schema.
     match l with [] => false | ff :: r => if ff_entry_passes ff then ff_loop_broke r else true end.
   Definition ff_valid (v : value) : bool :=
     match v with
-    | VList l => let _broke := ff_loop_broke l in true
+    | VList l => negb (ff_loop_broke l)
     | _ => false
     end.
 
@@ -378,7 +380,8 @@ Section Schema.
          p_enc_algo := VNull; p_enc_key := VNull; p_enc_ser := VNull |}.
 
   Definition check_args (pc : pcfg) (a : value) : chk :=
-    if pc_publish pc then require (is_list a || is_str a || is_bytes a) ProtocolError
+    (* Publish (after fix dbd3c93e): `args is not None and type(args) not in [list, str, bytes]` *)
+    if pc_publish pc then require (is_null a || is_list a || is_str a || is_bytes a) ProtocolError
     else require (is_null a || is_list a) ProtocolError.
   Definition check_kwargs (pc : pcfg) (k : value) : chk :=
     if pc_publish pc then require (is_dict k || is_str k || is_bytes k) ProtocolError
